@@ -7,3 +7,8 @@ claim("C18",
       "Proof, per function and for all inputs/states: counter.increment/decrement preserve the counter invariant (current <= stop, hysteresis at resume, exact uint64 arithmetic); the listener's monitor (lock invariant K && current == outstanding tokens) is re-established at every unlock from any invariant-satisfying state, i.e. under every interleaving of the critical sections; Accept on a closed listener keeps no token. Safety half of the property only.",
       "Trusted: govc (the VC generator), the SMT solvers, go/ssa. Assumed: sync.Cond/Mutex provide mutual exclusion, sync/atomic is atomic, observers (slog, prometheus) have no effect on the counter. Not decided: liveness (waiting accepts eventually proceed).",
       "DESIGN.md section 5 C18")
+
+claim("C19",
+      "Proof for all methods, paths and header sets: shouldProxy accepts only the four documented shapes and only paths whose slash-free segments stay under the first segment after dot-segment normalisation (loop invariant over the segment list); ServeHTTP reaches the reverse proxy only then, and at that call the four client-supplied forwarding headers are absent and X-Connecting-Ip is exactly the host of RemoteAddr (the property is the precondition of the assumed ReverseProxy.ServeHTTP contract); otherwise the backend is not contacted.",
+      "Trusted: govc, SMT solvers, go/ssa. Assumed (from their source): strings.SplitN/TrimPrefix as uninterpreted functions with size facts, http.Header Set/Del/Get map semantics with canonical keys, Request.WithContext shallow copy, netutil.SplitHost; httputil.ReverseProxy in Rewrite mode and the backend's own normalisation are not verified.",
+      "DESIGN.md section 5 C19")
